@@ -10,16 +10,15 @@
 EXTENDS Poly, Json, IOUtils
 Recs == ndJsonDeserialize(IOEnv.QV_RECS)
 NR == Len(Recs)
-VARIABLES c, ph, x
-vars == <<c, ph, x>>
-Init == c = 0 /\ ph = 0 /\ x = {}
-Next == \/ ph = 0 /\ ph' = 1 /\ c' \in 1..16 /\ x' = x
-        \/ ph = 1 /\ ph' = 2 /\ c' \in {i \in 1..NR : i % 16 = c % 16} /\ x' = x
-        \/ ph = 2 /\ ph' = 3 /\ c' = c /\ x' \in SUBSET ToSet(Recs[c].K)
+VARIABLES c, ph, x, k      \* k: the chosen record's model, canonicalised once and carried in the state
+vars == <<c, ph, x, k>>
+Init == c = 0 /\ ph = 0 /\ x = {} /\ k = Zero
+Next == \/ ph = 0 /\ ph' = 1 /\ c' \in 1..16 /\ UNCHANGED <<x, k>>
+        \/ ph = 1 /\ ph' = 2 /\ x' = x /\ \E i \in {j \in 1..NR : j % 16 = c % 16} : c' = i /\ k' = FromRaw(Recs[i].spin, Recs[i].model)
+        \/ ph = 2 /\ ph' = 3 /\ c' = c /\ k' = k /\ x' \in SUBSET ToSet(Recs[c].K)
 Spec == Init /\ [][Next]_vars
 R == Recs[c]
-MOf == TLCEval([i \in 1..NR |-> FromRaw(Recs[i].spin, Recs[i].model)])
-M == MOf[c]
+M == k
 K == ToSet(R.K)
 Value(a) == Eval(R.spin, M, a)
 Valid(a) == CASE R.valid_kind = "true" -> TRUE
